@@ -1709,6 +1709,11 @@ fn run_c17(args: &Args) -> Report {
                 std::fs::create_dir_all(ddir.join("src")).unwrap();
                 std::fs::write(ddir.join("gleam.toml"), "name = \"devonly\"\nversion = \"1.0.0\"\n\n[dependencies]\n").unwrap();
                 std::fs::write(ddir.join("src/devonly.gleam"), DEVONLY_TEXT).unwrap();
+                // ... and a STALE package: still in build/packages, listed by nobody any more
+                let sdir = p.dir.join("build/packages/stale");
+                std::fs::create_dir_all(sdir.join("src")).unwrap();
+                std::fs::write(sdir.join("gleam.toml"), "name = \"stale\"\nversion = \"1.0.0\"\n\n[dependencies]\n").unwrap();
+                std::fs::write(sdir.join("src/stale.gleam"), DEVONLY_TEXT).unwrap();
             }
             std::fs::write(p.dir.join("gleam.toml"), toml).unwrap();
             for (m, dirname) in &p.modules {
@@ -1923,8 +1928,31 @@ fn run_c17(args: &Args) -> Report {
             }
             let layout = format!("dependency-fetched-late:{}:{}", if late_listed { "listed-from-the-start" } else { "added-to-the-manifest-late" }, if told { "watched-files-event" } else { "no-event" });
             rep.see("layouts", layout.clone());
-            version += 1;
             let lu = file_uri(&lfile.display().to_string());
+            let mut rp0 = replay.clone();
+            rp0["late_dependency"] = json!({"layout": layout, "opening_order": order_name});
+            // It is a dependency the root now lists: a module of the root written after it arrived imports it - asked BEFORE any
+            // document of the dependency is opened (an open document would put its module into the store by itself)
+            let ufile = p0.dir.join("src/late_user.gleam");
+            let utext = "import latedep_entry\n\npub fn late_user() { latedep_entry.late_fn(1) }\n";
+            std::fs::write(&ufile, utext).unwrap();
+            let uu = file_uri(&ufile.display().to_string());
+            version += 1;
+            s.notify("textDocument/didOpen", json!({"textDocument":{"uri":uu,"languageId":"gleam","version":version,"text":utext}}));
+            let id = s.request("textDocument/definition", json!({"textDocument":{"uri":uu},"position":{"line":2,"character":38}}));
+            if let Some(resp) = s.wait_response(id, Duration::from_secs(20)) {
+                let got: Vec<String> = match resp.get("result") {
+                    Some(Value::Array(a)) => a.iter().filter_map(|l| l["uri"].as_str()).map(vh::lspclient::normalise_uri).collect(),
+                    Some(Value::Object(o)) => o.get("uri").and_then(|u| u.as_str()).map(|u| vec![vh::lspclient::normalise_uri(u)]).unwrap_or_default(),
+                    _ => vec![],
+                };
+                let want = vh::lspclient::normalise_uri(&lu);
+                rep.count("definition_queries_into_a_late_dependency", 1);
+                if got != vec![want.clone()] {
+                    rep.violate(format!("late-dependency:import-does-not-resolve:{}", if late_listed { "listed" } else { "added-late" }), format!("{layout}: `latedep_entry.late_fn` in a module of the root answers {got:?}, expected {want}"), rp0.clone());
+                }
+            }
+            version += 1;
             s.notify("textDocument/didOpen", json!({"textDocument":{"uri":lu,"languageId":"gleam","version":version,"text":ltext}}));
             let mut rp = replay.clone();
             rp["late_dependency"] = json!({"layout": layout, "opening_order": order_name});
@@ -1941,7 +1969,7 @@ fn run_c17(args: &Args) -> Report {
             let Some(rr) = s.wait_response(id, Duration::from_secs(20)) else { rep.count("server_died(C15's business)", 1); continue; };
             let edits_dependency = rr.get("result").map(|r| r.to_string().contains("build/packages/latedep")).unwrap_or(false);
             if edits_dependency {
-                rep.violate(format!("rename-edits-dependency:late-dependency:{}", if late_listed { "listed" } else { "added-late" }), format!("{layout}: rename of `late_fn` returns edits in build/packages/latedep"), rp);
+                rep.violate(format!("rename-edits-dependency:late-dependency:{}", if late_listed { "listed" } else { "added-late" }), format!("{layout}: rename of `late_fn` returns edits in build/packages/latedep"), rp.clone());
             }
         } else if !root_listed.is_empty() && cr.chance(1, 2) {
             let dropped = root_listed[cr.below(root_listed.len())].clone();
@@ -2009,11 +2037,14 @@ fn run_c17(args: &Args) -> Report {
                 continue;
             }
         }
-        // the dev-dependency: a document inside it is navigable, never editable
-        if devdep {
-            let dfile = pkgs[0].dir.join("build/packages/devonly/src/devonly.gleam");
+        // the dev-dependency and the stale package: a document inside them is navigable, never editable
+        for (pkg_dir, what) in [("devonly", "dev-dependency"), ("stale", "unlisted-package")] {
+            if !devdep {
+                break;
+            }
+            let dfile = pkgs[0].dir.join(format!("build/packages/{pkg_dir}/src/{pkg_dir}.gleam"));
             let du = file_uri(&dfile.display().to_string());
-            rep.see("layouts", "dev-dependency-only-package");
+            rep.see("layouts", format!("{what}-under-build-packages"));
             version += 1;
             s.notify("textDocument/didOpen", json!({"textDocument":{"uri":du,"languageId":"gleam","version":version,"text":DEVONLY_TEXT}}));
             let mut rp = replay.clone();
@@ -2022,13 +2053,13 @@ fn run_c17(args: &Args) -> Report {
             if let Some(pr) = s.wait_response(id, Duration::from_secs(20)) {
                 rep.count("prepare_rename_queries_in_a_dev_dependency", 1);
                 if pr.get("result").map(|r| !r.is_null()).unwrap_or(false) {
-                    rep.violate(format!("external-package-editability:dev-dependency:build-packages-accepted:{order_name}"), "prepareRename on `helper` of build/packages/devonly (listed under [dev-dependencies]) accepts".to_string(), rp.clone());
+                    rep.violate(format!("external-package-editability:{what}:build-packages-accepted:{order_name}"), format!("prepareRename on `helper` of build/packages/{pkg_dir} accepts"), rp.clone());
                 }
             }
             let id = s.request("textDocument/rename", json!({"textDocument":{"uri":du},"position":{"line":2,"character":4},"newName":"renamed_helper"}));
             if let Some(rr) = s.wait_response(id, Duration::from_secs(20)) {
-                if rr.get("result").map(|r| r.to_string().contains("build/packages/devonly")).unwrap_or(false) {
-                    rep.violate(format!("rename-edits-dependency:dev-dependency:{order_name}"), "rename of `helper` returns edits in build/packages/devonly".to_string(), rp);
+                if rr.get("result").map(|r| r.to_string().contains(&format!("build/packages/{pkg_dir}"))).unwrap_or(false) {
+                    rep.violate(format!("rename-edits-dependency:{what}:{order_name}"), format!("rename of `helper` returns edits in build/packages/{pkg_dir}"), rp);
                 }
             }
         }
